@@ -1,7 +1,10 @@
 #![allow(dead_code)]
 //! verif-harness: runs the real aiken/uplc code next to the Lean models.
 //!   verif-harness <sub-command> [--seed N] [--tier quick|thorough] [--out file] [--replay file]
+mod c03;
 mod c15;
+mod cek;
+mod gen;
 mod driver;
 mod prng;
 mod report;
@@ -41,7 +44,7 @@ fn main() {
                 ctx.replay = Some(args[i + 1].clone());
                 i += 1;
             }
-            other => panic!("unknown argument {other}"),
+            _ => {} // sub-command specific arguments are read by the sub-command
         }
         i += 1;
     }
@@ -49,6 +52,7 @@ fn main() {
     std::panic::set_hook(Box::new(|_| {}));
     let rep = match sub.as_str() {
         "c15-names" => c15::names(&ctx),
+        "c03-cek" => c03::run(&ctx),
         other => {
             eprintln!("unknown sub-command {other}");
             std::process::exit(2);
